@@ -5,7 +5,7 @@ from .. import core, fsys
 class C46(core.Prop):
     id = "C46"
     drivers = [fsys.DRIVER]
-    sizes = {"quick": 1200, "thorough": 40000}
+    sizes = {"quick": 800, "thorough": 40000}
     max_workers = 6
     technique = ("property-based testing (Hypothesis): stateful histories of file operations run on the real file system plugin, every "
                  "observation compared with a reference model `path -> size` (model-based oracle, exact integers)")
@@ -36,10 +36,15 @@ class C46(core.Prop):
         log = fsys.run(case)
         if log.wall_exceeded:
             raise core.Inconclusive()
-        if not log.done:
-            oc.bad("run-crashed", "s4u_wf did not finish: " + log.crash_text())
-            return oc
         labels = set()
+        if not log.done:
+            # the operations that did complete are judged first: a crash that follows a divergence already reported (e.g. a seek computed
+            # from a size that a known defect made wrong) is a consequence, not a finding of its own
+            fsys.check(case, log, oc, labels, partial=True)
+            if all(v.sig.startswith(("used-size-wrong", "free-size-wrong")) for v in oc.violations):   # (these do not end the comparison)
+                oc.bad("run-crashed", "s4u_wf did not finish: " + log.crash_text())
+            oc.labels = sorted(labels)
+            return oc
         fsys.check(case, log, oc, labels)
         oc.labels = sorted(labels)
         oc.nontrivial = any(l.startswith("write-in-the-middle-shorter-than-tail") or "beyond-end" in l for l in labels)
